@@ -17,6 +17,13 @@ Space
     under MPFloat, MPFixed for every nmin in -200..-1 and 0, 1, 2, 3, 5, a few MPSFloat / IEEE
     formats, and stochastic MPFloat p = 1..16 (quick 1..8), k = 1, 3, all draws.
 
+  histories: ordered sequences of (constant or function point, context, mode) evaluated in ONE
+    pristine process (fresh interpreter + one fork per history), contexts mixing MPFixed nmin in
+    -1, -3, -12, -40, MPFloat p = 3, 53, IEEE(3,6), Fixed(signed,-4,8), SMFixed(-2,6): for every
+    context c, every subject under c first and under every other context later; thorough also
+    every ordered pair (c1, c2) as the first two contexts; every step is judged by the same
+    history-independent oracle.
+
 Oracle
   mc.model.enclose: the true result is classified from mathematics first (undefined / pole /
   exactly known rational / irrational / not known to be rational); a rational result goes
@@ -226,7 +233,7 @@ def unary_operands(fname: str, tier: str):
 def binary_operands(fname: str, tier: str):
     """[((a, b), form)]"""
     quick = tier == 'quick'
-    mags = p3_magnitudes((-3, -1, 0, 1, 3) if quick else range(-4, 7))
+    mags = p3_magnitudes((-3, 0, 1, 3) if quick else range(-4, 7))
     vals = [Q(0)] + [v for m in mags for v in (m, -m)]
     pairs = [(a, b) for a in vals for b in vals]
     if fname == 'pow':
@@ -308,7 +315,7 @@ class Check(BaseCheck):
     rule = ('(function or constant, operand tuple, context configuration, rounding mode, overflow mode[, random '
             'draw]); operand sets, precisions 1..512 and modes are enumerated completely.  nontrivial = distinct '
             '(function, operands, configuration, mode) whose true result is NOT a member of the format (the '
-            'rounding is inexact or overflows)')
+            'rounding is inexact or overflows).  Histories: every step of every history is a state and a transition')
     assumptions = ['MPFR (gmpy2) directed rounding RNDD/RNDU of one function at the oracle precision is a valid '
                    'enclosure; a common-mode MPFR error is out of scope',
                    'rationality of the true result is decided by the table in mc/model/enclose.py '
@@ -331,6 +338,7 @@ class Check(BaseCheck):
         self.cnmins = list(range(-200, 0)) + [0, 1, 2, 3, 5]
         self.ubparts = 2
         self.bparts = 8 if tier == 'quick' else 24
+        self.hparts = 3 if tier == 'quick' else 16
 
     def bounds(self):
         return {'unary_functions': len(UNARY), 'binary_functions': len(BINARY), 'constants': len(CONSTANTS),
@@ -340,7 +348,12 @@ class Check(BaseCheck):
                 'binary_operand_pairs': {f: len(binary_operands(f, self.tier)) for f in BINARY},
                 'constant_precisions': f'{len(self.cprecs)} of 1..512 (max {max(self.cprecs)})',
                 'constant_fixed_nmin': f'{len(self.cnmins)}: -200..-1, 0, 1, 2, 3, 5', 'modes': 8,
-                'enclosure_cap_bits': E.MAX_PREC}
+                'enclosure_cap_bits': E.MAX_PREC,
+                'history_contexts': [cfg_text(f, p) for f, p in HIST_CTX], 'history_modes': list(HIST_MODES),
+                'history_subjects': [s[0] for s in hist_subjects()],
+                'histories': len(hist_histories(self.tier)),
+                'history_shape': 'per first context c: every subject under c first, then under all others; thorough: '
+                                 'every ordered pair (c1, c2) first; plus Eulerian walks over each subject\'s items'}
 
     def shards(self):
         sh = [('u', f, i) for f in UNARY for i in range(self.ubparts)]
@@ -348,6 +361,7 @@ class Check(BaseCheck):
         sh += [('c', c, 0) for c in CONSTANTS]
         sh += [('s', 'functions', i) for i in range(8)]
         sh += [('s', 'constants', 0)]
+        sh += [('h', 'histories', i) for i in range(self.hparts)]
         return sh
 
     def selfcheck(self):
@@ -386,44 +400,40 @@ class Check(BaseCheck):
     def call(self, fname, objs, ctx):
         return getattr(fp.ops, fname)(*objs, ctx=ctx)
 
+    def compare(self, fname, args, forms, ctx, outs):
+        """one call of the implementation -> (outcome label, None | (kind, text))"""
+        objs = [as_float(a, f) for a, f in zip(args, forms)]
+        try:
+            y = self.call(fname, objs, ctx)
+        except (ValueError, OverflowError) as e:
+            return 'raises', (None if any(o[0] == 'ERR' for o in outs) else ('raised', f'raised {e!r}'))
+        except Exception as e:
+            return 'raises-other', ('raised-other', f'raised {type(e).__name__}: {e}')
+        try:
+            xy = to_x(y)
+        except Exception:
+            return 'bad-type', ('result-type', f'returned a {type(y).__name__}')
+        ok_val = [o for o in outs if o[0] != 'ERR' and o[0].same(xy)]
+        if not ok_val:
+            return xy.kind, ('value', f'returned {fx(xy)}')
+        if not any((o[1] is None or o[1] == bool(y.inexact)) for o in ok_val):
+            return xy.kind, ('inexact-flag', f'returned {fx(xy)} with inexact={y.inexact}')
+        return xy.kind, None
+
     def judge(self, r, fname, args, forms, family, params, mode, ovf, ctx, outs):
         """one call of the implementation against the admissible outcomes"""
         r.count('evaluations')
         r.count('transitions')
         arm = _arm(outs)
-        case = {'fn': fname, 'args': [str(a) for a in args], 'forms': list(forms), 'family': family,
-                'params': {a: str(b) for a, b in params.items()}, 'mode': mode, 'overflow': ovf, 'k': 0}
-        sig = {'fn': fname, 'group': _group(fname), 'family': family, 'arm': arm}
-
-        def bad(kind, detail):
-            s = dict(sig)
-            s['kind'] = kind
-            r.violate(s, case, f'{fname}({", ".join(str(a) for a in args)}) under {cfg_text(family, params)} '
-                               f'rm={mode} ov={ovf}: {detail}; admissible {_fmt_outs(outs)}')
-        objs = [as_float(a, f) for a, f in zip(args, forms)]
-        try:
-            y = self.call(fname, objs, ctx)
-        except (ValueError, OverflowError) as e:
-            r.outcomes[f'{arm}:raises'] += 1
-            if not any(o[0] == 'ERR' for o in outs):
-                bad('raised', f'raised {e!r}')
-            return
-        except Exception as e:
-            r.outcomes[f'{arm}:raises-other'] += 1
-            bad('raised-other', f'raised {type(e).__name__}: {e}')
-            return
-        try:
-            xy = to_x(y)
-        except Exception:
-            bad('result-type', f'returned a {type(y).__name__}')
-            return
-        r.outcomes[f'{arm}:{xy.kind}'] += 1
-        ok_val = [o for o in outs if o[0] != 'ERR' and o[0].same(xy)]
-        if not ok_val:
-            bad('value', f'returned {fx(xy)}')
-            return
-        if not any((o[1] is None or o[1] == bool(y.inexact)) for o in ok_val):
-            bad('inexact-flag', f'returned {fx(xy)} with inexact={y.inexact}')
+        label, fail = self.compare(fname, args, forms, ctx, outs)
+        r.outcomes[f'{arm}:{label}'] += 1
+        if fail is not None:
+            kind, detail = fail
+            case = {'fn': fname, 'args': [str(a) for a in args], 'forms': list(forms), 'family': family,
+                    'params': {a: str(b) for a, b in params.items()}, 'mode': mode, 'overflow': ovf, 'k': 0}
+            sig = {'fn': fname, 'group': _group(fname), 'family': family, 'arm': arm, 'kind': kind}
+            r.violate(sig, case, f'{fname}({", ".join(str(a) for a in args)}) under {cfg_text(family, params)} '
+                                 f'rm={mode} ov={ovf}: {detail}; admissible {_fmt_outs(outs)}')
 
     def check_point(self, r, fname, x, args, forms, cache, family, params, ovfs, built):
         """all modes of one (function, operands, configuration)"""
@@ -592,7 +602,7 @@ class Check(BaseCheck):
             else:
                 pts = unary_operands(fname, self.tier)
                 if self.tier == 'quick':
-                    pts = pts[::3]
+                    pts = pts[::5]
             for args, forms in ((a if isinstance(a, tuple) else (a,), (f,) * (2 if isinstance(a, tuple) else 1))
                                 for a, f in pts):
                 x = E.Enclosed(fname, args)
@@ -603,6 +613,131 @@ class Check(BaseCheck):
                     for k in (1, 3):
                         for mode in MODES:
                             self.check_stochastic(r, fname, x, args, forms, family, params, k, mode)
+
+
+    # ---- histories ------------------------------------------------------------
+    def _zygote(self, req: dict):
+        """starts a pristine interpreter (imports, evaluates nothing) and returns its answer"""
+        import json
+        import os
+        import pickle
+        import subprocess
+        import sys
+        from ..engine.runner import ROOT
+        boot = ("import os, sys\n"
+                "alt = os.environ.get('FPY_REPO')\n"
+                "if alt:\n"
+                "    sys.path.insert(0, alt)\n"
+                "    import fpy2\n"
+                "    assert os.path.abspath(fpy2.__file__).startswith(os.path.abspath(alt)), fpy2.__file__\n"
+                "from mc.checks.c03 import zygote_main\n"
+                "zygote_main()\n")
+        req = dict(req, tier=self.tier, seed=self.seed)
+        p = subprocess.run([sys.executable, '-W', 'ignore', '-c', boot], input=json.dumps(req).encode(), cwd=ROOT,
+                           env=dict(os.environ), capture_output=True, timeout=3000)
+        i = p.stdout.find(HIST_MARK)
+        if p.returncode != 0 or i < 0:
+            raise RuntimeError(f'pristine interpreter failed (exit {p.returncode}):\n' +
+                               p.stderr.decode(errors='replace')[-3000:])
+        return pickle.loads(p.stdout[i + len(HIST_MARK):])
+
+    def run_history_shard(self, r, part):
+        sub = self._zygote({'op': 'histories', 'part': part, 'parts': self.hparts})
+        r.counts.update(sub.counts)
+        r.outcomes.update(sub.outcomes)
+        r.violations.extend(sub.violations)
+        r.samples.extend(sub.samples)
+        r.notes.extend(sub.notes)
+
+    def confirm_pristine(self, r):
+        """The single-call shards run in a long-lived worker, so a failure seen there may depend on
+        what that worker evaluated earlier, which its replay case does not record.  Every failing
+        case is therefore re-run alone in a pristine process: it is reported here only if it fails
+        there too; order-dependent failures are the business of the history shards (whose cases carry
+        the sequence) and are only counted here."""
+        if not r.violations:
+            return
+        ok = self._zygote({'op': 'confirm', 'cases': [v.case for v in r.violations]})
+        dropped = [v for v, k in zip(r.violations, ok) if not k]
+        r.violations = [v for v, k in zip(r.violations, ok) if k]
+        if dropped:
+            r.count('order_dependent_failures_left_to_history_shards', len(dropped))
+            r.outcomes['failed in a long-lived worker, correct alone in a pristine process'] += len(dropped)
+            r.notes.append('some single-call failures did not recur alone in a pristine process (they depend on earlier '
+                           'evaluations in the worker): not reported by the single-call shards, e.g. ' +
+                           dropped[0].detail[:160])
+
+    def run_histories(self, part, parts):
+        """runs in the zygote: one forked child per history"""
+        r = ShardResult()
+        hs = [h for i, h in enumerate(hist_histories(self.tier)) if i % parts == part]
+        runner = _HistoryRunner(self)
+        runner.warm([st for g in hist_items() for st in g[:1]])
+        alone = {}                       # step key -> does the step fail on its own from the pristine state?
+        budget = [24]                    # forks spent on minimisation in this shard
+        reported = {}
+
+        def key(st):
+            return json_key(st)
+
+        def fails_at_end(history):
+            res = _in_fork(lambda: runner.run(history))
+            last = len(history) - 1
+            return [f for f in res['fails'] if f[0] == last]
+
+        for h in hs:
+            res = _in_fork(lambda: runner.run(h))
+            r.count('histories')
+            r.count('states', res['n'])
+            r.count('evaluations', res['n'])
+            r.count('transitions', res['n'])
+            r.count('nontrivial', res['nontrivial'])
+            if res['inconclusive']:
+                r.count('inconclusive', res['inconclusive'])
+            r.outcomes.update(res['labels'])
+            for i, kind, text in res['fails'][:4]:
+                st = h[i]
+                sig = {'fn': st['fn'], 'group': _group(st['fn']), 'family': st['family'], 'kind': kind}
+                skey = tuple(sorted(sig.items()))
+                if reported.get(skey, 0) >= 3:
+                    r.count('violations_raw')
+                    continue
+                reported[skey] = reported.get(skey, 0) + 1
+                # minimise: the step alone; then one earlier step + the step; else the prefix as run
+                seq = h[:i + 1]
+                k = key(st)
+                if i > 0 and budget[0] > 0:
+                    if k not in alone:
+                        budget[0] -= 1
+                        alone[k] = bool(fails_at_end([st]))
+                    if alone[k]:
+                        seq = [st]
+                    else:
+                        cands = [j for j in range(i) if h[j]['fn'] == st['fn']] + \
+                                [j for j in range(i) if h[j]['fn'] != st['fn']]
+                        for j in cands[:12]:
+                            if budget[0] <= 0:
+                                break
+                            budget[0] -= 1
+                            if fails_at_end([h[j], st]):
+                                seq = [h[j], st]
+                                break
+                elif i == 0:
+                    alone[k] = True
+                sig['arm'] = 'history' if len(seq) > 1 else 'alone'
+                if len(seq) > 1:
+                    sig['after'] = seq[0]['family'] if len(seq) == 2 else 'long'
+                case = {'history': seq}
+                before = '' if len(seq) == 1 else (
+                    'after ' + '; '.join(step_text(x) for x in seq[:-1][:3]) +
+                    (f' ... ({len(seq) - 1} earlier steps)' if len(seq) > 4 else '') + ': ')
+                r.violate(sig, case, f'{before}{step_text(st)}: {text}' +
+                          ('' if len(seq) == 1 else '  [the same call is correct in a fresh process]'
+                           if alone.get(k) is False else ''))
+        if part == 0 and hs:
+            r.sample({'history': [step_text(x) for x in hs[0][:4]] + [f'... {len(hs[0])} steps'],
+                      'histories in this shard': len(hs)})
+        return r
 
     # ---- shards ---------------------------------------------------------------
     def run_shard(self, shard):
@@ -621,19 +756,24 @@ class Check(BaseCheck):
             self.run_constant(r, name)
             r.sample({'constant': name, 'precisions': f'{len(self.cprecs)} (max {max(self.cprecs)})',
                       'fixed nmin': len(self.cnmins), 'modes': 8})
+        elif kind == 'h':
+            self.run_history_shard(r, part)
         else:
             self.run_stochastic(r, name, part)
+        if kind != 'h':
+            self.confirm_pristine(r)
         return r
 
     def replay(self, case):
-        P = {}
-        for a, v in case['params'].items():
-            if a == 'name':
-                P[a] = v
-            elif v in ('True', 'False'):
-                P[a] = v == 'True'
-            else:
-                P[a] = Fraction(v) if '/' in v else int(v)
+        if 'history' in case:
+            # this process has evaluated nothing yet: run the whole sequence here
+            h = case['history']
+            res = _HistoryRunner(self).run(h)
+            lines = [f'step {i + 1}/{len(h)}: {step_text(st)}' for i, st in enumerate(h[-6:], max(0, len(h) - 6))]
+            if res['fails']:
+                return True, '\n'.join(lines + [f'step {i + 1}: {step_text(h[i])}: {text}' for i, _, text in res['fails']])
+            return False, '\n'.join(lines + [f'all {len(h)} steps return the correctly rounded result'])
+        P = _parse_params(case['params'])
         fname = case['fn']
         args = tuple(Fraction(a) for a in case['args'])
         forms = tuple(case['forms'])
@@ -654,6 +794,235 @@ class Check(BaseCheck):
             return True, '\n'.join(v.detail for v in r.violations) + f'\n(true result: {x.kind}' + \
                 (f' = {fx(X.fin(x.value))}' if x.is_exact else f', decided with enclosures of up to {x.max_prec_used} bits') + ')'
         return False, f'case {case}: implementation returns the correctly rounded result'
+
+
+
+# ---------------------------------------------------------------------------
+# HISTORY dimension: a result must not depend on what was evaluated before in the process.
+#
+# A history is an ordered sequence of steps (constant-or-function, context, mode) evaluated
+# in ONE process that starts pristine (fpy2 imported, nothing evaluated).  Each history shard
+# starts a fresh interpreter (the "zygote": imports, evaluates nothing) which forks one child
+# per history; the child runs the history and compares EVERY step with the history-independent
+# enclosure oracle.  Enumerated (see hist_histories):
+#   * for every context c of the pool: a history in which every subject is evaluated under c
+#     FIRST and under every other context later (all ordered pairs "c first, c' later", coarse
+#     before fine and fine before coarse);
+#   * thorough: the same with the two modes swapped, and for every ordered pair (c1, c2) a history
+#     in which every subject meets c1, then c2, then the rest (sequences of length 3 and more);
+#   * walks along an Eulerian circuit over a subject's items, so every ordered pair of items of
+#     a subject also occurs as ADJACENT steps (state of the "last call" kind).
+# A failing step is minimised in fresh forks (the step alone; then [earlier step, step]); the
+# replay case carries the whole sequence to be run from the pristine state.
+
+HIST_CTX = [('MPFixed', {'nmin': -1}), ('MPFixed', {'nmin': -3}), ('MPFixed', {'nmin': -12}),
+            ('MPFixed', {'nmin': -40}), ('MPFloat', {'p': 3}), ('MPFloat', {'p': 53}),
+            ('IEEE', {'es': 3, 'nbits': 6}), ('Fixed', {'signed': True, 'scale': -4, 'nbits': 8}),
+            ('SMFixed', {'scale': -2, 'nbits': 6})]
+HIST_FUN = [('exp', (Q(1),)), ('log', (Q(2),)), ('sin', (Q(1),)), ('pow', (Q(2), Q(1, 2))), ('atan2', (Q(1), Q(1)))]
+HIST_MODES = ('RNE', 'RTP')
+HIST_MARK = b'\n@@C03-HISTORY-RESULT@@\n'
+
+
+def hist_subjects():
+    return [(c, ()) for c in CONSTANTS] + HIST_FUN
+
+
+def hist_step(subject, ctx, mode):
+    fname, args = subject
+    family, params = ctx
+    return {'fn': fname, 'args': [str(a) for a in args], 'family': family,
+            'params': {a: str(b) for a, b in params.items()}, 'mode': mode}
+
+
+def hist_items():
+    """all steps, grouped by subject"""
+    return [[hist_step(sub, c, m) for c in HIST_CTX for m in HIST_MODES] for sub in hist_subjects()]
+
+
+def _euler(n: int):
+    """a closed walk on n vertices that uses every ordered pair (i, j), loops included, once"""
+    nxt = [0] * n
+    stack, out = [0], []
+    while stack:
+        v = stack[-1]
+        if nxt[v] < n:
+            w = nxt[v]
+            nxt[v] += 1
+            stack.append(w)
+        else:
+            out.append(stack.pop())
+    out.reverse()
+    assert len(out) == n * n + 1
+    return out
+
+
+def hist_histories(tier: str):
+    """deterministic list of histories (lists of steps); each is run in its own pristine process.
+
+    A history visits every subject; for a subject X it evaluates X under the history's FIRST
+    context(s) before any other context, then under every other context (rotated), so that over
+    all histories every ordered pair (context used first for X, context used later for X) occurs,
+    coarse before fine as well as fine before coarse.  Forking is expensive here (~0.2 s), hence
+    one process per choice of first context(s) rather than one per pair."""
+    subs = hist_subjects()
+    n = len(HIST_CTX)
+    out = []
+
+    def visit(first, modes, rot):
+        h = []
+        order = subs[rot % len(subs):] + subs[:rot % len(subs)]
+        for sub in order:
+            later = [c for c in range(n) if c not in first]
+            later = later[rot % len(later):] + later[:rot % len(later)]
+            for c in list(first) + later:
+                for m in modes:
+                    h.append(hist_step(sub, HIST_CTX[c], m))
+        return h
+
+    def walks(modes):
+        h = []
+        for sub in subs:
+            items = [hist_step(sub, c, m) for c in HIST_CTX for m in modes]
+            h += [items[i] for i in _euler(len(items))]
+        return h
+
+    for c in range(n):
+        out.append(visit([c], ('RNE', 'RTP'), c) + (walks(('RNE',)) if c % 4 == 0 else []))
+    if tier != 'quick':
+        for c in range(n):
+            out.append(visit([c], ('RTP', 'RNE'), c + 4))
+        for c1 in range(n):
+            for c2 in range(n):
+                if c1 != c2:
+                    out.append(visit([c1, c2], ('RNE', 'RTP'), c1 * n + c2))
+        out.append(walks(HIST_MODES))
+        out.append(list(reversed(walks(HIST_MODES))))
+    return out
+
+
+def _parse_params(params: dict) -> dict:
+    P = {}
+    for a, v in params.items():
+        if a == 'name':
+            P[a] = v
+        elif v in ('True', 'False'):
+            P[a] = v == 'True'
+        else:
+            P[a] = Fraction(v) if '/' in v else int(v)
+    return P
+
+
+class _HistoryRunner:
+    """evaluates steps in THIS process; oracle values are history-independent"""
+
+    def __init__(self, check):
+        self.check = check
+        self.built = {}
+        self.enc = {}
+
+    def subject(self, step):
+        key = (step['fn'], tuple(step['args']))
+        if key not in self.enc:
+            self.enc[key] = E.Enclosed(step['fn'], tuple(Fraction(a) for a in step['args']))
+        return self.enc[key]
+
+    def warm(self, steps):
+        """oracle-side work that needs no fpy2: done before forking"""
+        for st in steps:
+            x = self.subject(st)
+            if not x.is_exact:
+                x.sign()
+                x.ilog2()
+
+    def step(self, st):
+        """-> (arm, label, None | (kind, text), outs) or None when inconclusive"""
+        key = (st['family'], _pk(st['params']), st['mode'])
+        if key not in self.built:
+            self.built[key] = build(st['family'], _parse_params(st['params']), st['mode'], 'OVERFLOW')
+        ctx, spec = self.built[key]
+        x = self.subject(st)
+        outs = round_real(spec, x, st['mode'], 'OVERFLOW')
+        if outs is None:
+            return None
+        args = tuple(Fraction(a) for a in st['args'])
+        label, fail = self.check.compare(st['fn'], args, ('Float',) * len(args), ctx, outs)
+        return _arm(outs), label, fail, outs
+
+    def run(self, history):
+        """-> {'n': steps run, 'inexact': .., 'inconclusive': .., 'labels': Counter, 'fails': [(index, kind, text)]}"""
+        from collections import Counter
+        res = {'n': 0, 'nontrivial': 0, 'inconclusive': 0, 'labels': Counter(), 'fails': []}
+        for i, st in enumerate(history):
+            o = self.step(st)
+            res['n'] += 1
+            if o is None:
+                res['inconclusive'] += 1
+                continue
+            arm, label, fail, outs = o
+            if arm in ('inexact', 'overflow'):
+                res['nontrivial'] += 1
+            res['labels'][f'history:{arm}:{label}'] += 1
+            if fail is not None:
+                res['fails'].append((i, fail[0], f'{fail[1]}; admissible {_fmt_outs(outs)}'))
+        return res
+
+
+def _in_fork(fn):
+    """runs fn() in a forked child of this (pristine) process and returns its picklable result"""
+    import os
+    import pickle
+    rfd, wfd = os.pipe()
+    pid = os.fork()
+    if pid == 0:
+        code = 0
+        try:
+            os.close(rfd)
+            try:
+                data = pickle.dumps(('ok', fn()))
+            except BaseException:
+                import traceback
+                data = pickle.dumps(('error', traceback.format_exc()))
+            with os.fdopen(wfd, 'wb') as f:
+                f.write(data)
+        except BaseException:
+            code = 3
+        finally:
+            os._exit(code)
+    os.close(wfd)
+    with os.fdopen(rfd, 'rb') as f:
+        data = f.read()
+    os.waitpid(pid, 0)
+    tag, val = pickle.loads(data)
+    if tag != 'ok':
+        raise RuntimeError('history child failed:\n' + val)
+    return val
+
+
+def step_text(st):
+    return (f'{st["fn"]}({", ".join(st["args"])}) under {cfg_text(st["family"], st["params"])} rm={st["mode"]}')
+
+
+def zygote_main():
+    """entry point of the fresh interpreter started by a history shard.  NOTHING of fpy2.ops is
+    evaluated in this process: every history runs in a forked child."""
+    import json
+    import pickle
+    import sys
+    req = json.loads(sys.stdin.read())
+    check = Check(req['tier'], req['seed'])
+    if req.get('op') == 'confirm':
+        # each case alone, from the pristine state
+        r = [_in_fork(lambda c=c: check.replay(c)[0]) for c in req['cases']]
+    else:
+        r = check.run_histories(req['part'], req['parts'])
+    sys.stdout.buffer.write(HIST_MARK + pickle.dumps(r))
+    sys.stdout.buffer.flush()
+
+
+def json_key(st):
+    import json
+    return json.dumps(st, sort_keys=True)
 
 
 def _pk(params):
